@@ -424,7 +424,7 @@ static void e3(char* line) {
     if (!failed) strategies(cookies, 1, maxDepth);
     fprintf(hx_out, "INFO sizes");
     for (i = 0; i < nL; i++) fprintf(hx_out, " %u", 24 + L[i].len);
-    fprintf(hx_out, "\nS 0 fd_readdir %d entries=%d buflen=%u full_listing_calls=%d strategies=%ld calls=%ld complete=%d\n", failed, nL, bufLen, calls + 1, stratE3, callsE3,
+    fprintf(hx_out, "\nS 0 fd_readdir 0 agrees=%d entries=%d buflen=%u full_listing_calls=%d strategies=%ld calls=%ld complete=%d\n", !failed, nL, bufLen, calls + 1, stratE3, callsE3,
             bufLen >= 24u + longest);
 }
 
